@@ -3,7 +3,7 @@ import ast
 
 from ..cfg import witness
 from ..core import AnalysisError, u, walk_local, enclosing_stmt
-from ..lib import (construct, std_facts, def_of, facts_imply, calls_of_node,
+from ..lib import (positional_args, construct, std_facts, def_of, facts_imply, calls_of_node,
                    in_subtree, returns_of, facts_at, all_match_form)
 from .c02 import eos, consuming_methods, CP, alternatives, indirect_callees, is_decline
 from .common import instance_state
@@ -180,8 +180,10 @@ def run(ctx):
       elif isinstance(n.targets[0], ast.Name):
         key_whole.add(n.targets[0].id)
   for n in walk_local(ps.node):
-    if isinstance(n, ast.Call) and u(n.func) == 'BindingStatement' and not n.keywords:
-      a = n.args
+    if isinstance(n, ast.Call) and u(n.func) == 'BindingStatement':
+      a = positional_args(ctx.ix, n)
+      if a is None:
+        continue
       if key_parts and len(a) >= 4 and [u(x) for x in a[:3]] == key_parts and u(a[3]) == 'value':
         okb, unpack = True, True
       # BindingStatement(*key, value, loc): the three parts in the order the key splitter returns them
